@@ -3,3 +3,45 @@
 #include "nmtools/array/view/broadcast_to.hpp"
 #include "nmtools/array/view/broadcast_arrays.hpp"
 namespace view = nm::view;
+using b1_t = hyb_t<unsigned,4,1>; using b2_t = hyb_t<unsigned,16,2>; using b3_t = hyb_t<unsigned,27,3>;
+
+// broadcast_to(array of fixed dim D, target shape): target container kinds static_vector / std::array / std::vector
+#define VBT(D, NAME, MKDST) \
+KERNEL int K(k_vbt##D##_##NAME)(const size_t* shape, const unsigned* data, const size_t* dst, size_t nd, const size_t* idx, size_t nidx, size_t* oshape, size_t* odim, unsigned* out){ \
+  b##D##_t a; if (!mk##D(a,shape,data)) return -1; return observe(view::broadcast_to(a, MKDST), idx, nidx, oshape, odim, out); }
+VBT(1, sv, (mk_sv<size_t,4>(dst,nd)))
+VBT(2, sv, (mk_sv<size_t,4>(dst,nd)))
+VBT(3, sv, (mk_sv<size_t,4>(dst,nd)))
+VBT(1, arr3, (mk_arr<size_t,3>(dst)))
+VBT(2, arr2, (mk_arr<size_t,2>(dst)))
+VBT(2, arr3, (mk_arr<size_t,3>(dst)))
+VBT(2, arr4, (mk_arr<size_t,4>(dst)))
+VBT(3, arr3, (mk_arr<size_t,3>(dst)))
+VBT(3, arr2, (mk_arr<size_t,2>(dst)))
+VBT(2, vec, (mk_vec(dst,nd)))
+// a number broadcast to a shape
+KERNEL int K(k_vbt0_sv)(unsigned value, const size_t* dst, size_t nd, const size_t* idx, size_t nidx, size_t* oshape, size_t* odim, unsigned* out){
+  return observe(view::broadcast_to(value, mk_sv<size_t,4>(dst,nd)), idx, nidx, oshape, odim, out); }
+
+// broadcast_arrays: every operand is observed at the same index of the common shape
+template <typename R> static inline int observe2(const R& mr, const size_t* idx, size_t nidx, size_t* oshape, size_t* odim, size_t* oshape2, size_t* odim2, unsigned* out){
+  if (!nm::has_value(mr)) return 0;
+  const auto& t = nm::unwrap(mr);
+  int r0 = observe(nm::get<0>(t), idx, nidx, oshape, odim, &out[0]);
+  int r1 = observe(nm::get<1>(t), idx, nidx, oshape2, odim2, &out[1]);
+  return r0 == r1 ? r0 : 3; }
+#define VBA(DA, DB) \
+KERNEL int K(k_vba_##DA##_##DB)(const size_t* sa, const unsigned* da, const size_t* sb, const unsigned* db, const size_t* idx, size_t nidx, size_t* oshape, size_t* odim, size_t* oshape2, size_t* odim2, unsigned* out){ \
+  b##DA##_t a; b##DB##_t b; if (!mk##DA(a,sa,da) || !mk##DB(b,sb,db)) return -1; \
+  return observe2(view::broadcast_arrays(a, b), idx, nidx, oshape, odim, oshape2, odim2, out); }
+VBA(1,1) VBA(1,2) VBA(2,1) VBA(2,2) VBA(2,3) VBA(3,2) VBA(3,1)
+// three operands (2-d, 1-d, 3-d)
+KERNEL int K(k_vba3_2_1_3)(const size_t* sa, const unsigned* da, const size_t* sb, const unsigned* db, const size_t* sc, const unsigned* dc, const size_t* idx, size_t nidx, size_t* oshape, size_t* odim, unsigned* out){
+  b2_t a; b1_t b; b3_t c; if (!mk2(a,sa,da) || !mk1(b,sb,db) || !mk3(c,sc,dc)) return -1;
+  auto mr = view::broadcast_arrays(a, b, c);
+  if (!nm::has_value(mr)) return 0;
+  const auto& t = nm::unwrap(mr); size_t s2[4], d2;
+  int r0 = observe(nm::get<0>(t), idx, nidx, oshape, odim, &out[0]);
+  int r1 = observe(nm::get<1>(t), idx, nidx, s2, &d2, &out[1]);
+  int r2 = observe(nm::get<2>(t), idx, nidx, s2, &d2, &out[2]);
+  return (r0 == r1 && r1 == r2) ? r0 : 3; }
